@@ -54,6 +54,9 @@ Observed(t, m) ==
     /\ Has("out") => t.b_out = 0
     /\ Has("mem") => t.b_mem = 0
     /\ Has("desc") => t.b_desc = 0
+    \* C13 (SAFE_DATA): in a quiescent state no key material or plaintext is left in registers, in the
+    \* dead stack or in the manager's storage
+    /\ Has("residue") => (t.res_reg = 0 /\ t.res_stk = 0 /\ t.res_mgr = 0)
 
 CellOfSuite(su) == [mode |-> su[1], klen |-> su[2], dir |-> su[3], hash |-> su[4], order |-> su[5]]
 KindName(k) == IF k % 8 \in {0, 2} THEN "cipher" ELSE "hash"
